@@ -761,10 +761,12 @@ def list_method(I, st, ref, name):
             return
         yield st, items.pop(i)
 
-    def _find(st, x):
-        """-> list of (state, index or None); forks on symbolic equality"""
+    def _find(st, x, lo=0, hi=None):
+        """-> list of (state, index or None); forks on symbolic equality.  lo / hi: list.index(x, start, stop) searches
+        items[start:stop] only (slice semantics for negative / out-of-range bounds) and returns the index in the whole list"""
         items = L(st)
-        conds = [M.eq_values(I, st, y, x) for y in items]
+        rng = range(*slice(lo, hi).indices(len(items)))
+        conds = [(M.eq_values(I, st, y, x) if i in rng else False) for i, y in enumerate(items)]
         out = []
         prefix = []
         for i, c in enumerate(conds):
@@ -786,6 +788,8 @@ def list_method(I, st, ref, name):
         return out
 
     def remove(I, st, a, k):
+        if len(a) != 1 or k:
+            raise Unsupported("list.remove takes exactly one argument")
         for s2, i in _find(st, a[0]):
             if i is None:
                 yield s2, exc("ValueError", "list.remove(x): x not in list")
@@ -794,13 +798,17 @@ def list_method(I, st, ref, name):
                 yield s2, None
 
     def index(I, st, a, k):
-        for s2, i in _find(st, a[0]):
+        if k or len(a) > 3 or any(not (isinstance(b, int) or b is None) for b in a[1:]):
+            raise Unsupported("list.index with keyword or symbolic bounds")
+        for s2, i in _find(st, a[0], *(a[1:])):
             if i is None:
                 yield s2, exc("ValueError", "x not in list")
             else:
                 yield s2, i
 
     def count(I, st, a, k):
+        if len(a) != 1 or k:
+            raise Unsupported("list.count takes exactly one argument")
         items = L(st)
         tot = 0
         for y in items:
@@ -824,7 +832,7 @@ def list_method(I, st, ref, name):
         yield st, None
 
     def copy(I, st, a, k):
-        yield st, st.alloc(ListE(L(st)))
+        yield st, st.alloc(type(st.get(ref))(L(st)))  # list.copy() -> list, deque.copy() -> deque
 
     def clear(I, st, a, k):
         del L(st)[:]
